@@ -196,11 +196,11 @@ fn cuckoo_model_run(
 
 fn cuckoo_item(ctx: &Ctx, i: usize, union_heavy: bool, rep: &mut Report) {
     let mut r = FastRng::new(ctx.sub_seed(&[1, i as u64]));
-    let cfg = cuckoo_cfg(&mut r, i);
+    let cfg = if i % 512 == 5 { pick_cuckoo_wide_bucket(&mut r) } else { cuckoo_cfg(&mut r, i) };
     let label = cfg.label();
     rep.config(&label);
     let cap = cfg.slots();
-    let usz = (cap + r.below(cap as u64 + 1) as usize).clamp(8, 160);
+    let usz = if cap > 400 { 120 } else { (cap + r.below(cap as u64 + 1) as usize).clamp(8, 160) };
     let universe = cuckoo_universe(&cfg, &mut r, usz);
     if universe.len() < 4 {
         return;
@@ -208,7 +208,7 @@ fn cuckoo_item(ctx: &Ctx, i: usize, union_heavy: bool, rep: &mut Report) {
     let Some(cls) = c14::classes_for(&cfg, &universe, rep, "C12") else {
         return;
     };
-    let hists = 4;
+    let hists = if cap > 400 { 1 } else { 4 };
     for _ in 0..hists {
         let kb = kick_budget(&mut r);
         pdatastructs::verif::set_kick_budget(kb);
